@@ -399,9 +399,10 @@ where
     Data: hash::Hash,
 {
     fn hash<H: hash::Hasher>(&self, state: &mut H) {
+        // The TTL is not hashed: `PartialEq` ignores it and equal records
+        // have to produce equal hashes.
         self.owner.hash(state);
         self.class.hash(state);
-        self.ttl.hash(state);
         self.data.hash(state);
     }
 }
